@@ -67,6 +67,9 @@ func c03Universe() []string {
 				}
 			}
 		}
+		// deeper: a .git directory below the re-included .terraform/modules
+		// (the built-in exclusion of .git holds there too)
+		out = append(out, ".terraform/modules/.git/x.tf", ".terraform/modules/m/.git/c", "a/.terraform/modules/m/.git/x.tf", ".terraform/modules/m/b/x.tf")
 		sort.Strings(out)
 		c03Uni = out
 	})
